@@ -142,7 +142,7 @@ def gen_misuses(rng, n):
 
     for i in range(n):
         kind = rng.choice(["concrete_mod", "concrete_impl", "missing_fn", "missing_mod", "missing_impl", "self_fn", "self_mod", "self_impl",
-                           "unknown", "unknown", "unsupported", "unsupported", "custom_no_target", "target_no_delegate"])
+                           "unknown", "unknown", "qmark", "unsupported", "unsupported", "custom_no_target", "target_no_delegate"])
         nm = "g%03d_%s" % (i, kind)
         if kind in ("concrete_mod", "concrete_impl"):
             bad = "%sfn bad(d: &\n/*@off*/ %s\n%s) {}" % ("pub " if kind == "concrete_mod" else "", rng.choice(concrete), rng.choice(["", ", a: u8"]))
@@ -160,6 +160,15 @@ def gen_misuses(rng, n):
             src = "#[::entrait::entrait(Foo%s)]\n%s" % (rng.choice(["", ", no_deps", ", ?Send"]), bad) if kind == "self_fn" else \
                 container("mod" if kind == "self_mod" else "impl", bad)
             out.append((nm, src, r"cannot have a self receiver"))
+        elif kind == "qmark":
+            # `?` belongs to `?Send` only: in front of any other option name it makes an unknown option
+            tgt = rng.choice(["fn", "mod", "trait", "impl"])
+            word = rng.choice(["no_deps", "export", "debug", "unimock", "mockall", "mock_api", "delegate_by", "Sync", "Sized", "send"])
+            val = {"mock_api": " = M", "delegate_by": " = ref"}.get(word, rng.choice(["", " = true", " = false"]))
+            head, lst = attr_with(tgt, "?" + rng.choice(["", " "]) + word, val)
+            if tgt in ("trait", "impl") and not head and lst[0].startswith("\n"):
+                lst = [rng.choice(valid[tgt])] + lst if tgt == "trait" else ["debug = false"] + lst
+            out.append((nm, "#[::entrait::entrait(%s)]\n%s" % (", ".join(head + lst), items[tgt]), 'Unkonwn entrait option "%s"' % word))
         elif kind in ("unknown", "unsupported"):
             tgt = rng.choice(["fn", "mod", "trait", "impl"])
             if kind == "unknown":
